@@ -425,7 +425,7 @@ async fn stress(run: &mut Run, rng: &mut Rng, own: &RawNode, remotes: &[RawNode]
 
 /// C04 "the listing contains no peer whose connection it has seen closed", with user code that does
 /// not yield: while a handler of the peer blocks a worker thread, the peer's connection ends; the loss
-/// must be listed and announced at once, not when the handler gets round to finishing.
+/// must be listed and announced at once (within 1.8 s here; the handler blocks for 3 s), not when the handler gets round to finishing.
 /// (real time, multi-thread runtime)
 fn blocked_handler_exit(run: &mut Run, cases: usize) -> anyhow::Result<()> {
     for case in 0..cases {
@@ -443,7 +443,7 @@ fn blocked_handler_exit(run: &mut Run, cases: usize) -> anyhow::Result<()> {
             tokio::spawn(async move {
                 let mut req = anemo::Request::new(bytes::Bytes::from_static(b"x")).with_route("/b");
                 req.headers_mut().insert("x-id".into(), "blocker".into());
-                req.headers_mut().insert("x-block-ms".into(), "1500".into());
+                req.headers_mut().insert("x-block-ms".into(), "3000".into());
                 let _ = an.rpc(bid, req).await;
             });
             tokio::time::sleep(Duration::from_millis(150)).await; // the handler is now blocking a worker of B
@@ -454,7 +454,7 @@ fn blocked_handler_exit(run: &mut Run, cases: usize) -> anyhow::Result<()> {
                 let _ = a.net.shutdown().await;
             }
             let mut lost_after = None;
-            let deadline = tokio::time::Instant::now() + Duration::from_millis(1200);
+            let deadline = tokio::time::Instant::now() + Duration::from_millis(2200);
             loop {
                 match tokio::time::timeout_at(deadline, rx.recv()).await {
                     Ok(Ok(PeerEvent::LostPeer(p, _))) if p == a.id => {
@@ -470,9 +470,9 @@ fn blocked_handler_exit(run: &mut Run, cases: usize) -> anyhow::Result<()> {
         });
         let (lost_after, still) = res?;
         rt.shutdown_timeout(Duration::from_secs(3));
-        let ok = matches!(lost_after, Some(ms) if ms <= 700) && !still;
+        let ok = matches!(lost_after, Some(ms) if ms <= 1800) && !still;
         if !ok {
-            run.oracle_fail(json!({"kind": "a peer whose connection ended stayed listed / unannounced while one of its handlers was still running", "case": case, "lost_peer_after_ms": lost_after.map(|x| x as u64), "still_listed_after_1200ms": still}));
+            run.oracle_fail(json!({"kind": "a peer whose connection ended stayed listed / unannounced while one of its handlers was still running", "case": case, "lost_peer_after_ms": lost_after.map(|x| x as u64), "still_listed_after_2200ms": still}));
         }
         run.count("blocked-handler-exit", if ok { "prompt" } else { "late" });
         run.eval(&format!("blocked{case}"), true);
